@@ -11,6 +11,8 @@ R30d EngineData.reset_run clears _run_data and has_run tests exactly that field.
 R30e has_run() is also the duplicate test after a reconnect: the registration path restores the stored run
      whenever a run id is stored - not narrowed by any further condition - and under the stored id (the
      reconnect-restore clauses of C28, shared).
+R30f the id of the current run is fixed when its RunData is created: no assignment to `<run data>.run_id` anywhere in the
+     aggregator outside RunData's constructor (relabelling the current run stores it under another run's id).
 Decides the pairing structure; database behaviour and message arrival order are outside.
 """
 from __future__ import annotations
@@ -40,6 +42,30 @@ def run(ctx) -> None:
     stopped = prog.func(f"{FE}.run_stopped")
     ctx.analysed(started)
     ctx.analysed(stopped)
+    # ---- R30f: the id of the current run is fixed when its RunData is created
+    ctx.rule("R30f", "the run id of the current run data is never rewritten")
+    rd = prog.cls("openpectus.aggregator.models:RunData")
+    n_scanned = 0
+    rewrites = []
+    for fn in prog.iter_functions():
+        if fn.module.is_test or not fn.module.name.startswith("openpectus.aggregator"):
+            continue
+        n_scanned += 1
+        for t, v, st in assigned_attrs(fn.node):
+            if t.attr != "run_id":
+                continue
+            cs = ctx.res.receiver_classes(t.value, fn)
+            is_rd = any(c is rd for c in cs) or norm(t.value).endswith("run_data")
+            if is_rd and not (fn.cls is rd and fn.name == "__init__"):
+                rewrites.append((fn, st))
+    inst = "RunData.run_id is assigned only when the RunData is constructed"
+    if not rewrites:
+        ctx.ok("R30f", inst, {"rule": "R30f", "functions_scanned": n_scanned})
+    else:
+        fn, st = rewrites[0]
+        ctx.fail("R30f", fn, st, inst, f"`{norm(st)}` relabels the current run: the run that is then stored carries another run's id - that id gets a "
+                 "second recent-run record and the current run gets none (e.g. a resent run_stopped of the previous run arriving "
+                 "during the next run)")
     ctx.rule("R30a", "create_plot_log only after a fresh RunData was assigned")
     ctx.rule("R30b", "run_stopped: early return without run; store_recent_run always followed by reset_run")
     ctx.rule("R30c", "who-may-call store_recent_run / create_plot_log")
